@@ -94,6 +94,15 @@ def addLocal (st : St) (n : String) : Option St :=
   | .func f :: r => some { st with decls := .func { f with locals := f.locals ++ [n] } :: r }
   | _ => none
 
+def parseCallArgs (t : String) : Option (List CallArg) :=
+  if t = "-" then some [] else
+  (t.splitOn ",").mapM fun a =>
+    if a = "L" then some .lit
+    else match a.splitOn ":" with
+      | ["B", n] => some (.bare n)
+      | ["S", n] => some (.selfAttr n)
+      | _ => none
+
 def parseAlgKind : String → Option AlgKind
   | "function" => some .function | "rule" => some .rule | "constant" => some .constant | _ => none
 
@@ -202,6 +211,8 @@ def handle (st : St) (line : String) : St × String :=
   | ["badgroup", n] => ok (updRule st (.badGroup n))
   | ["call", fn, argc] => ok (argc.toNat? >>= fun a => updRule st (.call fn a))
   | ["selfattr", n] => ok (updRule st (.selfAttr n))
+  | ["dot", a, f, ix] => ok (updRule st (.dot a f (ix = "1")))
+  | ["callwith", fn, args] => ok (parseCallArgs args >>= fun as => updRule st (.callWith fn as))
   | ["smallreal", h] => ok (unhexS h >>= fun t => updRule st (.smallReal t))
   | ["type", n, l, "ref", t] => ok (do
       let l ← l.toNat?; let t ← parseTypeRef t
